@@ -1,2 +1,1362 @@
+import FoxModel.Lemmas.TreeInv
+set_option linter.unusedSimpArgs false
+set_option linter.unusedVariables false
+/-
+  C02 — registered routes behave as an exact map keyed by (method, pattern).
+-/
 namespace Fox.C02
+open Fox Fox.Model Fox.Spec
+
+/-- the empty tree satisfies the representation invariant -/
+theorem wf_newTree : wfRoots newTree.roots = true := by decide
+
+/-- the empty router's tree satisfies the full invariant `Good` -/
+theorem good_newTree : Good newTree := by
+  refine ⟨?_, by decide⟩
+  intro x hx
+  simp only [newTree, newRoots, commonVerbs, List.map_cons, List.map_nil, List.mem_cons, List.not_mem_nil,
+    or_false] at hx
+  rcases hx with rfl | rfl | rfl | rfl <;> exact rootOk_empty
+
+
+theorem nodup_map_inj {α β} {f : α → β} : ∀ {l : List α}, (l.map f).Nodup → ∀ {a b}, a ∈ l → b ∈ l → f a = f b → a = b
+  | [], _, _, _, ha, _, _ => by cases ha
+  | x :: xs, hnd, a, b, ha, hb, e => by
+    simp only [List.map_cons, List.nodup_cons] at hnd
+    rcases List.mem_cons.mp ha with rfl | ha'
+    · rcases List.mem_cons.mp hb with rfl | hb'
+      · rfl
+      · exact absurd (e ▸ List.mem_map_of_mem hb') hnd.1
+    · rcases List.mem_cons.mp hb with rfl | hb'
+      · exact absurd (e ▸ List.mem_map_of_mem ha') hnd.1
+      · exact nodup_map_inj hnd.2 ha' hb' e
+
+/-! ### the simulation relation -/
+
+/-- invariant of the tree, invariant of the store, and the abstraction relation between them -/
+structure Sim (t : Tree) (s : Store) : Prop where
+  good : Good t
+  store : StoreOk s
+  abs : abs t s
+
+theorem sim_new : Sim newTree [] := by
+  refine ⟨good_newTree, by simp [StoreOk], ?_, rfl⟩
+  intro m
+  have : routesOf newTree m = [] := by
+    unfold routesOf
+    cases hm : methodRoot newTree.roots m with
+    | none => rfl
+    | some root =>
+      have := methodRoot_some hm
+      simp only [newTree, newRoots, commonVerbs, List.map_cons, List.map_nil, List.mem_cons, List.not_mem_nil,
+        or_false, Prod.mk.injEq] at this
+      rcases this with ⟨_, rfl⟩ | ⟨_, rfl⟩ | ⟨_, rfl⟩ | ⟨_, rfl⟩ <;> rfl
+  rw [this]; simp [Store.routesOf]
+
+section
+variable {t : Tree} {s : Store} (h : Sim t s) (m : Bytes)
+include h
+
+theorem Sim.mem_iff (r' : Route) : r' ∈ s.routesOf m ↔ ∃ sr ∈ sufsOf t m, sr.2 = r' := by
+  rw [← (h.abs.1 m).mem_iff, routesOf_eq, List.mem_map]
+
+theorem Sim.get_none {pat : List Tok} (hno : ∀ sr ∈ sufsOf t m, sr.1 ≠ pat) : s.get m pat = none := by
+  rw [store_get_eq, List.find?_eq_none]
+  intro r' hr'
+  obtain ⟨sr, hsr, rfl⟩ := (h.mem_iff m r').mp hr'
+  have := (h.good.pats m sr hsr).1
+  simp only [beq_iff_eq]
+  rw [← this]; exact hno sr hsr
+
+theorem Sim.get_some {pat : List Tok} {e : Route} (hmem : (pat, e) ∈ sufsOf t m) : s.get m pat = some e := by
+  have hpat : e.pattern = pat := ((h.good.pats m _ hmem).1).symm
+  have hin : e ∈ s.routesOf m := (h.mem_iff m e).mpr ⟨_, hmem, rfl⟩
+  rw [store_get_eq]
+  cases hf : (s.routesOf m).find? (fun r => r.pattern == pat) with
+  | none =>
+    rw [List.find?_eq_none] at hf
+    exact absurd (by simpa using hpat) (hf e hin)
+  | some e' =>
+    have h1 := List.mem_of_find?_eq_some hf
+    have h2 := List.find?_some hf
+    simp only [beq_iff_eq] at h2
+    have := nodup_map_inj (store_routesOf_patterns_nodup h.store m) h1 hin (h2.trans hpat.symm)
+    rw [this]
+
+theorem Sim.conflicts (pat : List Tok) : (s.conflicts m pat).Perm (conflictsIn (sufsOf t m) pat) := by
+  rw [store_conflicts_eq, conflictsIn_eq_filter (h.good.pats m), ← routesOf_eq]
+  exact ((h.abs.1 m).filter _).symm
+
+end
+
+
+theorem store_routesOf_append (s : Store) (m m' : Bytes) (r : Route) :
+    Store.routesOf (s ++ [(m, r)]) m' = if m = m' then s.routesOf m' ++ [r] else s.routesOf m' := by
+  simp only [Store.routesOf, List.filter_append, List.map_append, List.filter_cons, List.filter_nil]
+  by_cases e : m = m'
+  · simp [e]
+  · have : (m == m') = false := beq_false_of_ne e
+    simp [e, this]
+
+/-- **Handle refines the map.** On a reachable tree related to a store, registering a route with a well-formed
+    pattern succeeds exactly when the sequential map accepts it (then tree and store stay related, `Len` grows by
+    one), fails with `ErrRouteExist` carrying the stored route exactly when the key (method, pattern) is present,
+    and fails with `ErrRouteConflict` exactly when the key is absent and some registered route of the method
+    declares a different wildcard of the same kind at the same position — the error then lists precisely those
+    routes (as a multiset) and is never empty. -/
+theorem handle_refines {t : Tree} {s : Store} {m : Bytes} {r : Route} (h : Sim t s) (hv : validPattern r = true) :
+    match t.insert m r, s.handle m r with
+    | .ok (t', _), (s', .ok r') => r' = r ∧ Sim t' s'
+    | .error (.exist e), (s', .exist) => s' = s ∧ s.get m r.pattern = some e
+    | .error (.conflict cs), (s', .conflict cs') => s' = s ∧ cs.Perm cs' ∧ cs ≠ []
+    | _, _ => False := by
+  have hs := insert_spec (m := m) h.good hv
+  cases hi : t.insert m r with
+  | error e =>
+    rw [hi] at hs
+    obtain ⟨⟨hconf, hmem⟩, hne⟩ := hs
+    cases e with
+    | exist x =>
+      have hg := h.get_some m hmem
+      simp only [Store.handle, hg]
+      refine ⟨?_, ?_⟩ <;> first | trivial | rfl | exact hg
+    | conflict cs =>
+      have hg := h.get_none m hmem
+      have hc := (h.conflicts m r.pattern).trans (by rw [hconf]; exact List.Perm.refl _ : (conflictsIn (sufsOf t m) r.pattern).Perm cs)
+      have hcs := hne cs rfl
+      simp only [Store.handle, hg]
+      cases hcc : s.conflicts m r.pattern with
+      | nil => rw [hcc] at hc; exact absurd hc.symm.eq_nil hcs
+      | cons c cs' => rw [hcc] at hc; exact ⟨rfl, hc.symm, hcs⟩
+  | ok y =>
+    obtain ⟨t', cse⟩ := y
+    rw [hi] at hs
+    obtain ⟨hgood, hsize, hperm, hother, hconf, hmem⟩ := hs
+    have hg := h.get_none m hmem
+    have hc : s.conflicts m r.pattern = [] := by
+      have := h.conflicts m r.pattern
+      rw [hconf] at this; exact this.eq_nil
+    simp only [Store.handle, hg, hc]
+    refine ⟨trivial, hgood, ?_, ?_, ?_⟩
+    · unfold StoreOk
+      simp only [List.map_append, List.map_cons, List.map_nil]
+      rw [List.nodup_append]
+      refine ⟨h.store, by simp, ?_⟩
+      intro a ha b hb
+      simp only [List.mem_singleton] at hb; subst hb
+      obtain ⟨e, he, rfl⟩ := List.mem_map.mp ha
+      simp only [Store.get, Option.map_eq_none_iff, List.find?_eq_none] at hg
+      have := hg e he
+      intro heq
+      simp only [Prod.mk.injEq] at heq
+      simp [heq.1, heq.2] at this
+    · intro m'
+      rw [store_routesOf_append]
+      by_cases e : m = m'
+      · subst e
+        simp only [if_true]
+        rw [routesOf_eq]
+        refine (hperm.map _).trans ?_
+        simp only [List.map_cons]
+        rw [← routesOf_eq]
+        exact ((h.abs.1 m).cons r).trans (List.perm_append_singleton r _).symm
+      · simp only [e, if_false]
+        rw [routesOf_eq, hother m' (Ne.symm e), ← routesOf_eq]
+        exact h.abs.1 m'
+    · rw [hsize, h.abs.2]; simp
+
+
+theorem store_routesOf_update (s : Store) (m m' : Bytes) (r : Route) :
+    Store.routesOf (s.map fun e => if e.1 == m && e.2.pattern == r.pattern then (m, r) else e) m' =
+      if m' = m then (s.routesOf m).map (fun r' => if r'.pattern == r.pattern then r else r') else s.routesOf m' := by
+  induction s with
+  | nil => simp [Store.routesOf]
+  | cons e es ih =>
+    by_cases h3 : m' = m
+    · subst h3
+      by_cases h1 : e.1 = m'
+      · by_cases h2 : e.2.pattern = r.pattern <;>
+          simp [Store.routesOf, List.filter_cons, h1, h2] at ih ⊢ <;> exact ih
+      · simp [Store.routesOf, List.filter_cons, h1] at ih ⊢; exact ih
+    · by_cases h1 : e.1 = m
+      · have h4 : ¬ e.1 = m' := fun e' => h3 (e'.symm.trans h1)
+        have h5 : ¬ m = m' := fun e' => h3 e'.symm
+        by_cases h2 : e.2.pattern = r.pattern <;>
+          simp [Store.routesOf, List.filter_cons, h1, h2, h3, h4, h5] at ih ⊢ <;> exact ih
+      · by_cases h4 : e.1 = m' <;>
+          simp [Store.routesOf, List.filter_cons, h1, h3, h4] at ih ⊢ <;> exact ih
+
+theorem store_update_keys (s : Store) (m : Bytes) (r : Route) :
+    (s.map fun e => if e.1 == m && e.2.pattern == r.pattern then (m, r) else e).map (fun e => (e.1, e.2.pattern)) =
+      s.map (fun e => (e.1, e.2.pattern)) := by
+  rw [List.map_map]
+  apply List.map_congr_left
+  intro e _
+  simp only [Function.comp]
+  split
+  · rename_i hc
+    simp only [Bool.and_eq_true, beq_iff_eq] at hc
+    rw [hc.1, hc.2]
+  · rfl
+
+/-- **Update refines the map.** `Update` succeeds exactly when the key (method, pattern) is registered, and then
+    replaces the stored route by the new one (tree and store stay related, `Len` unchanged); otherwise it reports
+    `ErrRouteNotFound` and changes nothing. -/
+theorem update_refines {t : Tree} {s : Store} {m : Bytes} {r : Route} (h : Sim t s) :
+    match t.update m r, s.update m r with
+    | some t', (s', .ok r') => r' = r ∧ Sim t' s'
+    | none, (s', .notFound) => s' = s
+    | _, _ => False := by
+  have hs := update_spec (m := m) (r := r) h.good
+  cases hu : t.update m r with
+  | none =>
+    rw [hu] at hs
+    have hg := h.get_none m hs
+    simp only [Store.update, hg]
+  | some t' =>
+    rw [hu] at hs
+    obtain ⟨hgood, hsize, ⟨old, X, hp1, hp2⟩, hother⟩ := hs
+    have hold : (r.pattern, old) ∈ sufsOf t m := hp1.mem_iff.mpr (by simp)
+    have hg := h.get_some m hold
+    have holdpat : old.pattern = r.pattern := ((h.good.pats m _ hold).1).symm
+    simp only [Store.update, hg]
+    refine ⟨trivial, hgood, ?_, ?_, ?_⟩
+    · unfold StoreOk; rw [store_update_keys]; exact h.store
+    · intro m'
+      rw [store_routesOf_update]
+      by_cases e : m' = m
+      · subst e
+        simp only [if_true]
+        -- patterns are unique among the routes of the method
+        have hnd : ((old :: X.map (·.2)).map (·.pattern)).Nodup := by
+          have h1 : (s.routesOf m').Perm (old :: X.map (·.2)) := by
+            refine (h.abs.1 m').symm.trans ?_
+            rw [routesOf_eq]; simpa using hp1.map (·.2)
+          exact (h1.map _).nodup_iff.mp (store_routesOf_patterns_nodup h.store m')
+        have hX : (X.map (·.2)).map (fun r' => if r'.pattern == r.pattern then r else r') = X.map (·.2) := by
+          conv => rhs; rw [← List.map_id (X.map (·.2))]
+          apply List.map_congr_left
+          intro x hx
+          simp only [List.map_cons, List.nodup_cons] at hnd
+          have : x.pattern ≠ r.pattern := by
+            intro e; apply hnd.1; rw [holdpat, ← e]; exact List.mem_map_of_mem hx
+          simp [this]
+        rw [routesOf_eq]
+        refine (hp2.map _).trans ?_
+        simp only [List.map_cons]
+        have h2 : ((s.routesOf m').map (fun r' => if r'.pattern == r.pattern then r else r')).Perm
+            (r :: X.map (·.2)) := by
+          have h1 : (s.routesOf m').Perm (old :: X.map (·.2)) := by
+            refine (h.abs.1 m').symm.trans ?_
+            rw [routesOf_eq]; simpa using hp1.map (·.2)
+          refine (h1.map _).trans ?_
+          simp only [List.map_cons, hX, holdpat, beq_self_eq_true, if_true]
+          exact List.Perm.refl _
+        exact h2.symm
+      · simp only [e, if_false]
+        rw [routesOf_eq, hother m' e, ← routesOf_eq]
+        exact h.abs.1 m'
+    · rw [hsize, h.abs.2]; simp
+
+
+theorem store_delete_length {s : Store} {m : Bytes} {pat : List Tok} (hok : StoreOk s)
+    (hfound : (s.find? fun e => e.1 == m && e.2.pattern == pat).isSome = true) :
+    (s.filter fun e => !(e.1 == m && e.2.pattern == pat)).length + 1 = s.length := by
+  induction s with
+  | nil => simp at hfound
+  | cons e es ih =>
+    unfold StoreOk at hok
+    simp only [List.map_cons, List.nodup_cons] at hok
+    cases hk : (e.1 == m && e.2.pattern == pat)
+    · simp only [List.find?_cons, hk] at hfound
+      simp only [List.filter_cons, hk, Bool.not_false, if_true, List.length_cons]
+      rw [ih hok.2 hfound]
+    · simp only [List.filter_cons, hk, Bool.not_true, Bool.false_eq_true, if_false, List.length_cons]
+      congr 1
+      congr 1
+      rw [List.filter_eq_self]
+      intro x hx
+      simp only [Bool.and_eq_true, beq_iff_eq] at hk
+      simp only [Bool.not_eq_true', Bool.and_eq_false_iff, beq_eq_false_iff_ne]
+      apply Decidable.or_iff_not_imp_left.mpr
+      intro h1 h2
+      simp only [ne_eq, Decidable.not_not] at h1
+      apply hok.1
+      rw [hk.1, hk.2, ← h1, ← h2]
+      exact List.mem_map_of_mem (f := fun e => (e.1, e.2.pattern)) hx
+
+theorem store_routesOf_delete (s : Store) (m m' : Bytes) (pat : List Tok) :
+    Store.routesOf (s.filter fun e => !(e.1 == m && e.2.pattern == pat)) m' =
+      if m' = m then (s.routesOf m).filter (fun r' => !(r'.pattern == pat)) else s.routesOf m' := by
+  induction s with
+  | nil => simp [Store.routesOf]
+  | cons e es ih =>
+    by_cases h3 : m' = m
+    · subst h3
+      by_cases h1 : e.1 = m'
+      · by_cases h2 : e.2.pattern = pat <;>
+          simp [Store.routesOf, List.filter_cons, h1, h2] at ih ⊢ <;> exact ih
+      · simp [Store.routesOf, List.filter_cons, h1] at ih ⊢; exact ih
+    · by_cases h1 : e.1 = m
+      · have h4 : ¬ e.1 = m' := fun e' => h3 (e'.symm.trans h1)
+        have h5 : ¬ m = m' := fun e' => h3 e'.symm
+        by_cases h2 : e.2.pattern = pat <;>
+          simp [Store.routesOf, List.filter_cons, h1, h2, h3, h4, h5] at ih ⊢ <;> exact ih
+      · by_cases h4 : e.1 = m' <;>
+          simp [Store.routesOf, List.filter_cons, h1, h3, h4] at ih ⊢ <;> exact ih
+
+/-- **Delete refines the map.** `Delete` succeeds exactly when the key (method, pattern) is registered; it then
+    returns the stored route, removes exactly that entry (tree and store stay related, `Len` shrinks by one);
+    otherwise it reports `ErrRouteNotFound` and changes nothing. -/
+theorem delete_refines {t : Tree} {s : Store} {m : Bytes} {pat : List Tok} (h : Sim t s) :
+    match t.remove m pat, s.delete m pat with
+    | some (t', old, _), (s', .ok old') => old' = old ∧ Sim t' s'
+    | none, (s', .notFound) => s' = s
+    | _, _ => False := by
+  have hs := remove_spec (m := m) (toks := pat) h.good
+  cases hr : t.remove m pat with
+  | none =>
+    rw [hr] at hs
+    have hg := h.get_none m hs
+    simp only [Store.delete, hg]
+  | some y =>
+    obtain ⟨t', old, cse⟩ := y
+    rw [hr] at hs
+    obtain ⟨hgood, hsize, hp, hother⟩ := hs
+    have hold : (pat, old) ∈ sufsOf t m := hp.mem_iff.mpr (by simp)
+    have hg := h.get_some m hold
+    have holdpat : old.pattern = pat := ((h.good.pats m _ hold).1).symm
+    simp only [Store.delete, hg]
+    refine ⟨trivial, hgood, ?_, ?_, ?_⟩
+    · exact h.store.sublist (List.Sublist.map _ List.filter_sublist)
+    · intro m'
+      rw [store_routesOf_delete]
+      by_cases e : m' = m
+      · subst e
+        simp only [if_true]
+        have h1 : (s.routesOf m').Perm (old :: routesOf t' m') := by
+          refine (h.abs.1 m').symm.trans ?_
+          rw [routesOf_eq, routesOf_eq]; simpa using hp.map (·.2)
+        have hnd : ((old :: routesOf t' m').map (·.pattern)).Nodup :=
+          (h1.map _).nodup_iff.mp (store_routesOf_patterns_nodup h.store m')
+        simp only [List.map_cons, List.nodup_cons] at hnd
+        refine List.Perm.symm ((h1.filter _).trans ?_)
+        simp only [List.filter_cons, holdpat, beq_self_eq_true, Bool.not_true, Bool.false_eq_true, if_false]
+        rw [List.filter_eq_self.mpr]
+        intro x hx
+        have : x.pattern ≠ pat := by
+          intro e; apply hnd.1; rw [holdpat, ← e]; exact List.mem_map_of_mem hx
+        simp [this]
+      · simp only [e, if_false]
+        rw [routesOf_eq, hother m' e, ← routesOf_eq]
+        exact h.abs.1 m'
+    · have hf : (s.find? fun e => e.1 == m && e.2.pattern == pat).isSome = true := by
+        simp only [Store.get, Option.map_eq_some_iff] at hg
+        obtain ⟨x, hx, _⟩ := hg
+        rw [hx]; rfl
+      have := store_delete_length h.store hf
+      rw [hsize, h.abs.2]; omega
+
+end Fox.C02
+
+namespace Fox.C02
+open Fox Fox.Model Fox.Spec
+
+theorem Good.congr {t t' : Tree} (e : t'.roots = t.roots) (h : Good t) : Good t' :=
+  ⟨fun x hx => h.roots x (e ▸ hx), e ▸ h.nodup⟩
+
+theorem routesOf_congr {t t' : Tree} (e : t'.roots = t.roots) (m : Bytes) : routesOf t' m = routesOf t m := by
+  simp only [routesOf, e]
+
+theorem routesOf_newRoots (sz mp dp : Nat) (m : Bytes) : routesOf ⟨newRoots, sz, mp, dp⟩ m = [] := by
+  unfold routesOf
+  cases hm : methodRoot newRoots m with
+  | none => rfl
+  | some root =>
+    have := methodRoot_some hm
+    simp only [newRoots, commonVerbs, List.map_cons, List.map_nil, List.mem_cons, List.not_mem_nil,
+      or_false, Prod.mk.injEq] at this
+    rcases this with ⟨_, rfl⟩ | ⟨_, rfl⟩ | ⟨_, rfl⟩ | ⟨_, rfl⟩ <;> rfl
+
+theorem truncateOne_refines {rs : Roots} {sz mp dp : Nat} {s : Store} (m : Bytes) (h : Sim ⟨rs, sz, mp, dp⟩ s) :
+    Sim ⟨(truncateOne (rs, sz) m).1, (truncateOne (rs, sz) m).2, mp, dp⟩ (s.filter fun e => e.1 != m) := by
+  have hstore : StoreOk (s.filter fun e => e.1 != m) := h.store.sublist (List.Sublist.map _ List.filter_sublist)
+  have hlen : (s.filter fun e => e.1 != m).length = s.length - (s.routesOf m).length := by
+    have := filter_length_split (fun e : Bytes × Route => e.1 == m) s
+    simp only [Store.routesOf, List.length_map]
+    have e : (fun e : Bytes × Route => e.1 != m) = (fun e => !(e.1 == m)) := rfl
+    rw [e]; omega
+  unfold truncateOne
+  simp only []
+  cases hm : methodRoot rs m with
+  | none =>
+    simp only []
+    have hnil : s.routesOf m = [] := by
+      have := h.abs.1 m
+      simp only [routesOf, hm] at this
+      exact this.symm.eq_nil
+    have : (s.filter fun e => e.1 != m) = s := by
+      rw [List.filter_eq_self]
+      intro e he
+      cases hem : e.1 == m
+      · simp [bne, hem]
+      · exfalso
+        have : e.2 ∈ s.routesOf m := by
+          simp only [Store.routesOf, List.mem_map, List.mem_filter]
+          exact ⟨e, ⟨he, hem⟩, rfl⟩
+        rw [hnil] at this; cases this
+    rw [this]; exact h
+  | some root =>
+    simp only []
+    have hcnt : (routesNode root).length = (s.routesOf m).length := by
+      have := (h.abs.1 m).length_eq
+      simpa [routesOf, hm] using this
+    cases hrm : isRemovable m with
+    | true =>
+      simp only [if_true]
+      refine ⟨⟨fun x hx => h.good.roots x (List.mem_filter.mp hx).1,
+        h.good.nodup.sublist (List.Sublist.map _ List.filter_sublist)⟩, hstore, ?_, ?_⟩
+      · intro m'
+        by_cases e : m' = m
+        · subst e
+          simp only [routesOf, methodRoot_filter_same, store_routesOf_filter_ne_same]
+          exact List.Perm.refl _
+        · simp only [routesOf, methodRoot_filter_other _ e, store_routesOf_filter_ne_other _ e]
+          exact h.abs.1 m'
+      · have := h.abs.2; simp only [hlen, hcnt] at this ⊢; omega
+    | false =>
+      simp only [Bool.false_eq_true, if_false]
+      refine ⟨good_setRoot h.good m rootOk_empty _ _ _, hstore, ?_, ?_⟩
+      · intro m'
+        by_cases e : m' = m
+        · subst e
+          simp only [routesOf, methodRoot_setRoot_same hm, store_routesOf_filter_ne_same]
+          exact List.Perm.refl _
+        · simp only [routesOf, methodRoot_setRoot_other e, store_routesOf_filter_ne_other _ e]
+          exact h.abs.1 m'
+      · have := h.abs.2; simp only [hlen, hcnt] at this ⊢; omega
+
+theorem truncate_fold {mp dp : Nat} (ms : List Bytes) : ∀ (rs : Roots) (sz : Nat) (s : Store),
+    Sim ⟨rs, sz, mp, dp⟩ s →
+    Sim ⟨(ms.foldl truncateOne (rs, sz)).1, (ms.foldl truncateOne (rs, sz)).2, mp, dp⟩
+      (ms.foldl (fun s m => s.filter fun e => e.1 != m) s) := by
+  induction ms with
+  | nil => intro rs sz s h; exact h
+  | cons m ms ih =>
+    intro rs sz s h
+    simp only [List.foldl_cons]
+    exact ih _ _ _ (truncateOne_refines m h)
+
+theorem store_fold_filter (ms : List Bytes) : ∀ s : Store,
+    ms.foldl (fun s m => s.filter fun e => e.1 != m) s = s.filter fun e => !ms.contains e.1 := by
+  induction ms with
+  | nil => intro s; simp only [List.foldl_nil, List.contains_nil, Bool.not_false]; exact (List.filter_eq_self.mpr (fun _ _ => rfl)).symm
+  | cons m ms ih =>
+    intro s
+    simp only [List.foldl_cons, ih, List.filter_filter]
+    apply List.filter_congr
+    intro e _
+    simp only [List.contains_cons, Bool.not_or, bne]
+    rw [Bool.and_comm]
+
+/-- **Truncate refines the map.** Truncating some methods (or all of them, for the empty list) removes exactly
+    the routes of those methods, and `Len` is the number of remaining routes. -/
+theorem truncate_refines {t : Tree} {s : Store} (ms : List Bytes) (h : Sim t s) :
+    Sim (t.truncate ms) (s.truncate ms) := by
+  obtain ⟨rs, sz, mp, dp⟩ := t
+  unfold Tree.truncate Store.truncate
+  cases hms : ms.isEmpty with
+  | true =>
+    simp only [if_true]
+    refine ⟨Good.congr (t := newTree) rfl good_newTree, by simp [StoreOk], ?_, rfl⟩
+    intro m
+    rw [routesOf_newRoots]; simp [Store.routesOf]
+  | false =>
+    simp only [Bool.false_eq_true, if_false]
+    have := truncate_fold (mp := mp) (dp := dp) ms rs sz s h
+    rw [store_fold_filter] at this
+    exact this
+
+end Fox.C02
+
+namespace Fox.C02
+open Fox Fox.Model Fox.Spec
+
+/-! ### preservation of the representation invariant `wfRoots` alone -/
+
+theorem wfRoots_iff (rs : Roots) : wfRoots rs = true ↔ (∀ x ∈ rs, wfRoot x.2 = true) ∧ (rs.map (·.1)).Nodup := by
+  simp only [Model.wfRoots, Bool.and_eq_true, List.all_eq_true, nodupB_iff]
+
+theorem wfRoots_setRoot {rs : Roots} (h : wfRoots rs = true) (m : Bytes) {n : Node} (hn : wfRoot n = true) :
+    wfRoots (setRoot rs m n) = true := by
+  rw [wfRoots_iff] at h ⊢
+  refine ⟨?_, by rw [setRoot_names]; exact h.2⟩
+  intro x hx
+  rcases mem_setRoot hx with h1 | rfl
+  · exact h.1 x h1
+  · exact hn
+
+theorem wfRoots_filter {rs : Roots} (h : wfRoots rs = true) (p : Bytes × Node → Bool) :
+    wfRoots (rs.filter p) = true := by
+  rw [wfRoots_iff] at h ⊢
+  exact ⟨fun x hx => h.1 x (List.mem_filter.mp hx).1, h.2.sublist (List.Sublist.map _ List.filter_sublist)⟩
+
+/-- `insert` preserves the representation invariant (for a well-formed pattern) -/
+theorem wf_insert {t t' : Tree} {m : Bytes} {r : Route} {c : InsCase} (hwf : wfRoots t.roots = true)
+    (hv : validPattern r = true) (h : t.insert m r = .ok (t', c)) : wfRoots t'.roots = true := by
+  have hne := validPattern_ne_nil hv
+  have hok := ((validPattern_iff r).mp hv).1
+  have hho := validPattern_hostOk hv
+  unfold Tree.insert at h
+  simp only [] at h
+  cases hm : methodRoot t.roots m with
+  | some root =>
+    simp only [hm] at h
+    cases hi : insertNode root true 0 0 r.pattern r with
+    | error e => rw [hi] at h; simp at h
+    | ok res =>
+      rw [hi] at h
+      simp only [Except.ok.injEq, Prod.mk.injEq] at h
+      obtain ⟨rfl, _⟩ := h
+      have hroot := ((wfRoots_iff _).mp hwf).1 _ (methodRoot_some hm)
+      exact wfRoots_setRoot hwf m (wf_insertRoot r root r.pattern res hroot hne hok hho hi)
+  | none =>
+    have hm2 : methodRoot (t.roots ++ [(m, emptyNode)]) m = some emptyNode := methodRoot_append_same _ hm
+    simp only [hm, hm2] at h
+    cases hi : insertNode emptyNode true 0 0 r.pattern r with
+    | error e => rw [hi] at h; simp at h
+    | ok res =>
+      rw [hi] at h
+      simp only [Except.ok.injEq, Prod.mk.injEq] at h
+      obtain ⟨rfl, _⟩ := h
+      have hwf2 : wfRoots (t.roots ++ [(m, emptyNode)]) = true := by
+        rw [wfRoots_iff] at hwf ⊢
+        refine ⟨?_, ?_⟩
+        · intro x hx
+          rcases List.mem_append.mp hx with h1 | h1
+          · exact hwf.1 x h1
+          · simp only [List.mem_singleton] at h1; subst h1; exact (by decide : wfRoot emptyNode = true)
+        · simp only [List.map_append, List.map_cons, List.map_nil]
+          rw [List.nodup_append]
+          refine ⟨hwf.2, by simp, ?_⟩
+          intro a ha b hb
+          simp only [List.mem_singleton] at hb; subst hb
+          obtain ⟨x, hx, rfl⟩ := List.mem_map.mp ha
+          exact methodRoot_none hm x hx
+      exact wfRoots_setRoot hwf2 m (wf_insertRoot r emptyNode r.pattern res (by decide) hne hok hho hi)
+
+/-- `update` preserves the representation invariant -/
+theorem wf_update {t t' : Tree} {m : Bytes} {r : Route} (hwf : wfRoots t.roots = true)
+    (h : t.update m r = some t') : wfRoots t'.roots = true := by
+  unfold Tree.update at h
+  cases hm : methodRoot t.roots m with
+  | none => simp [hm] at h
+  | some root =>
+    simp only [hm] at h
+    cases hu : updateNode root r.pattern r with
+    | none => simp [hu] at h
+    | some root' =>
+      simp only [hu, Option.some.injEq] at h
+      subst h
+      have hroot := ((wfRoots_iff _).mp hwf).1 _ (methodRoot_some hm)
+      exact wfRoots_setRoot hwf m (wf_updateRoot hroot hu)
+
+/-- `remove` preserves the representation invariant -/
+theorem wf_remove {t t' : Tree} {m : Bytes} {toks : List Tok} {old : Route} {c : RemCase}
+    (hwf : wfRoots t.roots = true) (h : t.remove m toks = some (t', old, c)) : wfRoots t'.roots = true := by
+  unfold Tree.remove at h
+  cases hm : methodRoot t.roots m with
+  | none => simp [hm] at h
+  | some root =>
+    simp only [hm] at h
+    cases hr : removeNode root true toks with
+    | none => simp [hr] at h
+    | some y =>
+      obtain ⟨res, old', cse⟩ := y
+      simp only [hr, Option.some.injEq, Prod.mk.injEq] at h
+      obtain ⟨rfl, _, _⟩ := h
+      have hroot := ((wfRoots_iff _).mp hwf).1 _ (methodRoot_some hm)
+      cases res with
+      | replaced n =>
+        have hn : wfRoot n = true := by
+          have := (wf_removeNode root true toks _ old' cse (by simpa [wfN] using hroot) hr n rfl).1
+          simpa [wfN] using this
+        simp only []
+        split
+        · exact wfRoots_filter hwf _
+        · exact wfRoots_setRoot hwf m hn
+      | vanished =>
+        simp only []
+        split
+        · exact wfRoots_filter hwf _
+        · exact wfRoots_setRoot hwf m hroot
+      | vanishedHost =>
+        simp only []
+        split
+        · exact wfRoots_filter hwf _
+        · exact wfRoots_setRoot hwf m hroot
+
+theorem wf_truncateOne {rs : Roots} (sz : Nat) (m : Bytes) (hwf : wfRoots rs = true) :
+    wfRoots (truncateOne (rs, sz) m).1 = true := by
+  unfold truncateOne
+  simp only []
+  cases methodRoot rs m with
+  | none => exact hwf
+  | some root =>
+    simp only []
+    split
+    · exact wfRoots_filter hwf _
+    · exact wfRoots_setRoot hwf m (by decide)
+
+/-- `truncate` preserves the representation invariant -/
+theorem wf_truncate {t : Tree} (ms : List Bytes) (hwf : wfRoots t.roots = true) :
+    wfRoots (t.truncate ms).roots = true := by
+  unfold Tree.truncate
+  split
+  · exact (by decide : wfRoots newRoots = true)
+  · simp only []
+    have : ∀ (ms : List Bytes) (rs : Roots) (sz : Nat), wfRoots rs = true →
+        wfRoots (ms.foldl truncateOne (rs, sz)).1 = true := by
+      intro ms
+      induction ms with
+      | nil => intro rs sz h; exact h
+      | cons m ms ih => intro rs sz h; exact ih _ _ (wf_truncateOne sz m h)
+    exact this ms t.roots t.size hwf
+
+/-! ### preservation of the full invariant `Good` (representation + hostname shape + pattern consistency) -/
+
+/-- a successful `Handle` with a well-formed pattern keeps the full invariant -/
+theorem good_insert {t t' : Tree} {m : Bytes} {r : Route} {c : InsCase} (hg : Good t)
+    (hv : validPattern r = true) (h : t.insert m r = .ok (t', c)) : Good t' := by
+  have := insert_spec (m := m) hg hv
+  rw [h] at this; exact this.1
+
+/-- a successful `Update` keeps the full invariant -/
+theorem good_update {t t' : Tree} {m : Bytes} {r : Route} (hg : Good t) (h : t.update m r = some t') : Good t' := by
+  have := update_spec (m := m) (r := r) hg
+  rw [h] at this; exact this.1
+
+/-- a successful `Delete` keeps the full invariant (no merge case leaves a dead branch or a misplaced '/') -/
+theorem good_remove {t t' : Tree} {m : Bytes} {toks : List Tok} {old : Route} {c : RemCase} (hg : Good t)
+    (h : t.remove m toks = some (t', old, c)) : Good t' := by
+  have := remove_spec (m := m) (toks := toks) hg
+  rw [h] at this; exact this.1
+
+theorem good_truncateOne {rs : Roots} {sz mp dp : Nat} (m : Bytes) (hg : Good ⟨rs, sz, mp, dp⟩) :
+    Good ⟨(truncateOne (rs, sz) m).1, (truncateOne (rs, sz) m).2, mp, dp⟩ := by
+  unfold truncateOne
+  simp only []
+  cases methodRoot rs m with
+  | none => exact hg
+  | some root =>
+    simp only []
+    split
+    · exact ⟨fun x hx => hg.roots x (List.mem_filter.mp hx).1,
+        hg.nodup.sublist (List.Sublist.map _ List.filter_sublist)⟩
+    · exact good_setRoot hg m rootOk_empty _ _ _
+
+/-- `Truncate` keeps the full invariant -/
+theorem good_truncate {t : Tree} (ms : List Bytes) (hg : Good t) : Good (t.truncate ms) := by
+  obtain ⟨rs, sz, mp, dp⟩ := t
+  unfold Tree.truncate
+  split
+  · exact Good.congr (t := newTree) rfl good_newTree
+  · simp only []
+    have : ∀ (ms : List Bytes) (rs : Roots) (sz : Nat), Good ⟨rs, sz, mp, dp⟩ →
+        Good ⟨(ms.foldl truncateOne (rs, sz)).1, (ms.foldl truncateOne (rs, sz)).2, mp, dp⟩ := by
+      intro ms
+      induction ms with
+      | nil => intro rs sz h; exact h
+      | cons m ms ih => intro rs sz h; exact ih _ _ (good_truncateOne m h)
+    exact this ms rs sz hg
+
+/-- the hostname invariant of `Model/WF.lean` holds on the empty tree … -/
+theorem hostOk_newTree : hostOkRoots newTree.roots = true := by decide
+
+/-- … and on every tree obtained by `insert` from a tree satisfying `Good` -/
+theorem hostOk_insert {t t' : Tree} {m : Bytes} {r : Route} {c : InsCase} (hg : Good t)
+    (hv : validPattern r = true) (h : t.insert m r = .ok (t', c)) : hostOkRoots t'.roots = true :=
+  (good_insert hg hv h).hostOkRoots
+
+/-- the hostname invariant holds after `Update` on a tree satisfying `Good` -/
+theorem hostOk_update {t t' : Tree} {m : Bytes} {r : Route} (hg : Good t) (h : t.update m r = some t') :
+    hostOkRoots t'.roots = true := (good_update hg h).hostOkRoots
+
+/-- the hostname invariant holds after `Delete` on a tree satisfying `Good` (`hostOkRoots` alone is not inductive
+    for `remove`: merging a hostname node into its parent needs to know that routes only sit in the path part) -/
+theorem hostOk_remove {t t' : Tree} {m : Bytes} {toks : List Tok} {old : Route} {c : RemCase} (hg : Good t)
+    (h : t.remove m toks = some (t', old, c)) : hostOkRoots t'.roots = true := (good_remove hg h).hostOkRoots
+
+/-- the hostname invariant holds after `Truncate` on a tree satisfying `Good` -/
+theorem hostOk_truncate {t : Tree} (ms : List Bytes) (hg : Good t) : hostOkRoots (t.truncate ms).roots = true :=
+  (good_truncate ms hg).hostOkRoots
+
+end Fox.C02
+
+namespace Fox.C02
+open Fox Fox.Model Fox.Spec
+
+/-! ### histories of operations -/
+
+/-- a mutating call on the router -/
+inductive Op where
+  | handle (m : Bytes) (r : Route)
+  | update (m : Bytes) (r : Route)
+  | delete (m : Bytes) (pat : List Tok)
+  | truncate (ms : List Bytes)
+
+/-- only `Handle` needs a hypothesis: the pattern it registers is well formed (what `parseRoute` accepts) -/
+def Op.valid : Op → Bool
+  | .handle _ r => validPattern r
+  | _ => true
+
+/-- one call on the radix tree; a failed call returns the tree it was given -/
+def stepModel (t : Tree) : Op → Tree × Option Outcome
+  | .handle m r =>
+    match t.insert m r with
+    | .ok (t', _) => (t', some (.ok r))
+    | .error (.exist _) => (t, some .exist)
+    | .error (.conflict cs) => (t, some (.conflict cs))
+  | .update m r =>
+    match t.update m r with
+    | some t' => (t', some (.ok r))
+    | none => (t, some .notFound)
+  | .delete m pat =>
+    match t.remove m pat with
+    | some (t', old, _) => (t', some (.ok old))
+    | none => (t, some .notFound)
+  | .truncate ms => (t.truncate ms, none)
+
+/-- the same call on the sequential map -/
+def stepSpec (s : Store) : Op → Store × Option Outcome
+  | .handle m r => ((s.handle m r).1, some (s.handle m r).2)
+  | .update m r => ((s.update m r).1, some (s.update m r).2)
+  | .delete m pat => ((s.delete m pat).1, some (s.delete m pat).2)
+  | .truncate ms => (s.truncate ms, none)
+
+/-- outcomes agree; the routes named by a conflict error are compared as a multiset -/
+def sameOutcome : Option Outcome → Option Outcome → Prop
+  | none, none => True
+  | some (.ok a), some (.ok b) => a = b
+  | some .exist, some .exist => True
+  | some .notFound, some .notFound => True
+  | some (.conflict a), some (.conflict b) => a.Perm b ∧ a ≠ []
+  | _, _ => False
+
+/-- outcome lists agree position by position -/
+def sameOutcomes : List (Option Outcome) → List (Option Outcome) → Prop
+  | [], [] => True
+  | a :: as, b :: bs => sameOutcome a b ∧ sameOutcomes as bs
+  | _, _ => False
+
+def isError : Option Outcome → Bool
+  | some (.ok _) => false
+  | none => false
+  | _ => true
+
+def runModel (t : Tree) : List Op → Tree × List (Option Outcome)
+  | [] => (t, [])
+  | op :: ops => ((runModel (stepModel t op).1 ops).1, (stepModel t op).2 :: (runModel (stepModel t op).1 ops).2)
+
+def runSpec (s : Store) : List Op → Store × List (Option Outcome)
+  | [] => (s, [])
+  | op :: ops => ((runSpec (stepSpec s op).1 ops).1, (stepSpec s op).2 :: (runSpec (stepSpec s op).1 ops).2)
+
+/-- one step of the simulation -/
+theorem step_refines {t : Tree} {s : Store} (op : Op) (h : Sim t s) (hv : op.valid = true) :
+    Sim (stepModel t op).1 (stepSpec s op).1 ∧ sameOutcome (stepModel t op).2 (stepSpec s op).2 := by
+  cases op with
+  | handle m r =>
+    have := handle_refines (m := m) h hv
+    simp only [stepModel, stepSpec]
+    cases hi : t.insert m r with
+    | ok y =>
+      obtain ⟨t', c⟩ := y
+      rw [hi] at this
+      cases hh : s.handle m r with
+      | mk s' o =>
+        rw [hh] at this
+        cases o <;> simp only [sameOutcome] at this ⊢
+        exact ⟨this.2, this.1.symm⟩
+    | error e =>
+      rw [hi] at this
+      cases hh : s.handle m r with
+      | mk s' o =>
+        rw [hh] at this
+        cases e <;> cases o <;> simp only [sameOutcome] at this ⊢
+        · exact ⟨this.1 ▸ h, trivial⟩
+        · exact ⟨this.1 ▸ h, this.2⟩
+  | update m r =>
+    have := update_refines (m := m) (r := r) h
+    simp only [stepModel, stepSpec]
+    cases hu : t.update m r with
+    | some t' =>
+      rw [hu] at this
+      cases hh : s.update m r with
+      | mk s' o =>
+        rw [hh] at this
+        cases o <;> simp only [sameOutcome] at this ⊢
+        exact ⟨this.2, this.1.symm⟩
+    | none =>
+      rw [hu] at this
+      cases hh : s.update m r with
+      | mk s' o =>
+        rw [hh] at this
+        cases o <;> simp only [sameOutcome] at this ⊢
+        exact ⟨this ▸ h, trivial⟩
+  | delete m pat =>
+    have := delete_refines (m := m) (pat := pat) h
+    simp only [stepModel, stepSpec]
+    cases hr : t.remove m pat with
+    | some y =>
+      obtain ⟨t', old, c⟩ := y
+      rw [hr] at this
+      cases hh : s.delete m pat with
+      | mk s' o =>
+        rw [hh] at this
+        cases o <;> simp only [sameOutcome] at this ⊢
+        exact ⟨this.2, this.1.symm⟩
+    | none =>
+      rw [hr] at this
+      cases hh : s.delete m pat with
+      | mk s' o =>
+        rw [hh] at this
+        cases o <;> simp only [sameOutcome] at this ⊢
+        exact ⟨this ▸ h, trivial⟩
+  | truncate ms =>
+    simp only [stepModel, stepSpec, sameOutcome, and_true]
+    exact truncate_refines ms h
+
+/-- **C02, refinement.** Starting from related states (in particular from the empty router), every finite
+    history of `Handle` (with parseable patterns), `Update`, `Delete` and `Truncate` calls produces on the radix
+    tree the same outcomes as on a sequential map keyed by (method, pattern) — success, `ErrRouteExist`,
+    `ErrRouteNotFound`, `ErrRouteConflict` with the same non-empty multiset of routes — and leaves the tree
+    related to the map: same routes per method, `Len` = number of entries, tree invariants intact. -/
+theorem run_refines : ∀ (ops : List Op) {t : Tree} {s : Store}, Sim t s → (∀ op ∈ ops, op.valid = true) →
+    Sim (runModel t ops).1 (runSpec s ops).1 ∧
+      sameOutcomes (runModel t ops).2 (runSpec s ops).2
+  | [], _, _, h, _ => ⟨h, trivial⟩
+  | op :: ops, t, s, h, hv => by
+    obtain ⟨h1, h2⟩ := step_refines op h (hv op (by simp))
+    obtain ⟨h3, h4⟩ := run_refines ops h1 (fun o ho => hv o (by simp [ho]))
+    exact ⟨h3, h2, h4⟩
+
+/-- **C02, refinement, from the empty router** (`run_refines` with `newTree` and the empty map). -/
+theorem C02_refines (ops : List Op) (hv : ∀ op ∈ ops, op.valid = true) :
+    Sim (runModel newTree ops).1 (runSpec [] ops).1 ∧
+      sameOutcomes (runModel newTree ops).2 (runSpec [] ops).2 :=
+  run_refines ops sim_new hv
+
+/-- **`Len`.** After any history the route counter of the tree equals the number of entries of the map. -/
+theorem C02_len (ops : List Op) (hv : ∀ op ∈ ops, op.valid = true) :
+    (runModel newTree ops).1.size = (runSpec [] ops).1.length :=
+  (C02_refines ops hv).1.abs.2
+
+/-- **Registered routes.** After any history, for every method the tree holds exactly the routes of the map
+    (as a multiset; the tree iterates them in key order, the map in registration order). -/
+theorem C02_routes (ops : List Op) (hv : ∀ op ∈ ops, op.valid = true) (m : Bytes) :
+    (routesOf (runModel newTree ops).1 m).Perm ((runSpec [] ops).1.routesOf m) :=
+  (C02_refines ops hv).1.abs.1 m
+
+/-- **Invariants of reachable trees.** Every tree reachable from the empty router satisfies the representation
+    invariant `wfRoots` and the hostname invariant `hostOkRoots` (the hypotheses of the lookup refinement, C01). -/
+theorem C02_reachable_wf (ops : List Op) (hv : ∀ op ∈ ops, op.valid = true) :
+    wfRoots (runModel newTree ops).1.roots = true ∧ hostOkRoots (runModel newTree ops).1.roots = true :=
+  ⟨(C02_refines ops hv).1.good.wfRoots, (C02_refines ops hv).1.good.hostOkRoots⟩
+
+/-- **A failed call changes nothing**: neither the tree nor the map. -/
+theorem C02_failed_noop {t : Tree} {s : Store} (op : Op) (h : Sim t s) (hv : op.valid = true)
+    (herr : isError (stepSpec s op).2 = true) : (stepSpec s op).1 = s ∧ (stepModel t op).1 = t := by
+  obtain ⟨_, hsame⟩ := step_refines op h hv
+  cases op with
+  | handle m r =>
+    simp only [stepModel, stepSpec] at hsame herr ⊢
+    constructor
+    · unfold Store.handle at herr ⊢
+      cases hg : s.get m r.pattern with
+      | some e => rfl
+      | none =>
+        simp only [hg] at herr ⊢
+        cases hc : s.conflicts m r.pattern with
+        | nil => simp [hc, isError] at herr
+        | cons c cs => rfl
+    · cases hi : t.insert m r with
+      | ok y =>
+        obtain ⟨t', c⟩ := y
+        rw [hi] at hsame
+        cases hh : (s.handle m r).2 <;> rw [hh] at hsame herr <;> simp [sameOutcome, isError] at hsame herr
+      | error e => cases e <;> rfl
+  | update m r =>
+    simp only [stepModel, stepSpec] at hsame herr ⊢
+    constructor
+    · unfold Store.update at herr ⊢
+      cases hg : s.get m r.pattern with
+      | some e => simp [hg, isError] at herr
+      | none => rfl
+    · cases hu : t.update m r with
+      | some t' =>
+        rw [hu] at hsame
+        cases hh : (s.update m r).2 <;> rw [hh] at hsame herr <;> simp [sameOutcome, isError] at hsame herr
+      | none => rfl
+  | delete m pat =>
+    simp only [stepModel, stepSpec] at hsame herr ⊢
+    constructor
+    · unfold Store.delete at herr ⊢
+      cases hg : s.get m pat with
+      | some e => simp [hg, isError] at herr
+      | none => rfl
+    · cases hr : t.remove m pat with
+      | some y =>
+        obtain ⟨t', old, c⟩ := y
+        rw [hr] at hsame
+        cases hh : (s.delete m pat).2 <;> rw [hh] at hsame herr <;> simp [sameOutcome, isError] at hsame herr
+      | none => rfl
+  | truncate ms => simp [stepSpec, isError] at herr
+
+end Fox.C02
+
+namespace Fox.C02
+open Fox Fox.Model Fox.Spec
+
+/-! ### the exact-pattern lookup (`Has` / `Route`) -/
+
+theorem render_append (a b : List Tok) : render (a ++ b) = render a ++ render b := by
+  simp [render]
+
+theorem render_cons_ne_nil (t : Tok) (ts : List Tok) : render (t :: ts) ≠ [] := by
+  cases t <;> simp [render, Tok.render]
+
+theorem head_render (t : Tok) (ts : List Tok) : (render (t :: ts)).head? = some (firstByte (t :: ts)) := by
+  cases t <;> simp [render, Tok.render, firstByte]
+
+theorem searchKids_pick (t : Tok) (ts : List Tok) : ∀ cs : List Node,
+    searchKids cs (render (t :: ts)) =
+      (match pickKid (t :: ts) cs with
+       | none => none
+       | some (_, c, _) => searchNode c (render (t :: ts)))
+  | [] => by simp [searchKids, pickKid]
+  | c :: cs => by
+    unfold searchKids
+    simp only [pickKid, head_render, Option.some.injEq]
+    split
+    · rfl
+    · rw [searchKids_pick t ts cs]
+      cases pickKid (t :: ts) cs with
+      | none => rfl
+      | some x => rfl
+
+/-- a registered suffix is found by the byte-wise search, in the node that carries its route -/
+theorem found_searchNode (n : Node) : ∀ (toks : List Tok) (x : Route), wfNode n = true → keyOk toks = true →
+    (toks, x) ∈ sufsNode n → ∃ n', searchNode n (render toks) = some n' ∧ n'.route = some x := by
+  induction n using Node.ind with
+  | h key route cs ih =>
+    intro toks x hwf hok hm
+    rw [wfNode_iff] at hwf
+    obtain ⟨hkne, hkok, hnd, hcatch, hkids⟩ := hwf
+    rw [sufsNode_own] at hm
+    rcases List.mem_append.mp hm with hm | hm
+    · cases route with
+      | none => simp [own] at hm
+      | some old =>
+        simp only [own, List.mem_singleton, Prod.mk.injEq] at hm
+        obtain ⟨rfl, rfl⟩ := hm
+        refine ⟨.mk toks (some x) cs, ?_, rfl⟩
+        unfold searchNode
+        simp
+    · obtain ⟨sr, hsr, he⟩ := List.mem_map.mp hm
+      obtain ⟨s, x'⟩ := sr
+      simp only [pre, Prod.mk.injEq] at he
+      obtain ⟨rfl, rfl⟩ := he
+      have hsne : s ≠ [] := sufsKids_ne_nil hkids _ hsr
+      have hoks : keyOk s = true := keyOk_append_right key s hok
+      obtain ⟨pre, c, post, hp, hmc⟩ := pick_of_mem hkids hnd hoks hsr
+      cases s with
+      | nil => exact absurd rfl hsne
+      | cons t ts =>
+        obtain ⟨rfl, _, _⟩ := pick_some hp
+        obtain ⟨n', h1, h2⟩ := ih c (by simp) (t :: ts) x' (wfKids_mem hkids (by simp)) hoks hmc
+        refine ⟨n', ?_, h2⟩
+        unfold searchNode
+        have hlen : ¬ (render (key ++ t :: ts)).length ≤ (render key).length := by
+          rw [render_append, List.length_append]
+          have : (render (t :: ts)).length ≠ 0 := fun e => render_cons_ne_nil t ts (List.length_eq_zero_iff.mp e)
+          omega
+        simp only [hlen, if_false]
+        rw [render_append, List.take_left', List.drop_left']
+        · simp only [if_true, searchKids_pick, hp]; exact h1
+        · rfl
+        · rfl
+
+theorem found_searchRoot {root : Node} {toks : List Tok} {x : Route} (hwf : wfRoot root = true)
+    (hok : keyOk toks = true) (hm : (toks, x) ∈ sufsNode root) :
+    ∃ n', searchRoot root (render toks) = some n' ∧ n'.route = some x := by
+  obtain ⟨key, route, cs⟩ := root
+  obtain ⟨rfl, rfl, hnd, hwk⟩ := (wfRoot_iff _ _ _).mp hwf
+  rw [sufsNode_own] at hm
+  simp only [own, List.nil_append, List.mem_map] at hm
+  obtain ⟨sr, hsr, he⟩ := hm
+  obtain ⟨s, x'⟩ := sr
+  simp only [pre, List.nil_append, Prod.mk.injEq] at he
+  obtain ⟨rfl, rfl⟩ := he
+  have hsne : s ≠ [] := sufsKids_ne_nil hwk _ hsr
+  obtain ⟨pre, c, post, hp, hmc⟩ := pick_of_mem hwk hnd hok hsr
+  cases s with
+  | nil => exact absurd rfl hsne
+  | cons t ts =>
+    obtain ⟨rfl, _, _⟩ := pick_some hp
+    obtain ⟨n', h1, h2⟩ := found_searchNode c (t :: ts) x' (wfKids_mem hwk (by simp)) hok hmc
+    refine ⟨n', ?_, h2⟩
+    unfold searchRoot
+    simp only [render_cons_ne_nil, if_false, Node.children_mk, searchKids_pick, hp]
+    exact h1
+
+theorem searchKids_sound : ∀ (cs : List Node) (p : Bytes) (n' : Node), searchKids cs p = some n' →
+    ∃ c ∈ cs, searchNode c p = some n'
+  | [], _, _, h => by simp [searchKids] at h
+  | c :: cs, p, n', h => by
+    unfold searchKids at h
+    split at h
+    · exact ⟨c, by simp, h⟩
+    · obtain ⟨d, hd, hs⟩ := searchKids_sound cs p n' h
+      exact ⟨d, by simp [hd], hs⟩
+
+theorem routesNode_mk (k : List Tok) (r : Option Route) (cs : List Node) :
+    routesNode (.mk k r cs) = (match r with | some r => [r] | none => []) ++ cs.flatMap routesNode := by
+  conv => lhs; unfold routesNode
+  rw [routesKids_eq_flatMap]
+  cases r <;> rfl
+
+/-- the node returned by the byte-wise search lies in the searched subtree -/
+theorem sound_searchNode (n : Node) : ∀ (p : Bytes) (n' : Node) (x : Route), searchNode n p = some n' →
+    n'.route = some x → x ∈ routesNode n := by
+  induction n using Node.ind with
+  | h key route cs ih =>
+    intro p n' x h hx
+    unfold searchNode at h
+    simp only [] at h
+    split at h
+    · split at h
+      · simp only [Option.some.injEq] at h; subst h
+        simp only [Node.route_mk] at hx; subst hx
+        simp [routesNode_mk]
+      · cases h
+    · split at h
+      · obtain ⟨c, hc, hs⟩ := searchKids_sound _ _ _ h
+        have := ih c hc _ _ _ hs hx
+        rw [routesNode_mk]
+        exact List.mem_append_right _ (List.mem_flatMap.mpr ⟨c, hc, this⟩)
+      · cases h
+
+theorem sound_routeOf {root : Node} {txt : Bytes} {x : Route} (h : routeOf root txt = some x) :
+    x ∈ routesNode root ∧ x.text = txt := by
+  unfold routeOf at h
+  cases hs : searchRoot root txt with
+  | none => simp [hs] at h
+  | some n' =>
+    simp only [hs] at h
+    cases hr : n'.route with
+    | none => simp [hr] at h
+    | some r =>
+      simp only [hr] at h
+      split at h
+      · rename_i htxt
+        simp only [Option.some.injEq] at h; subst h
+        refine ⟨?_, htxt⟩
+        unfold searchRoot at hs
+        split at hs
+        · simp only [Option.some.injEq] at hs; subst hs
+          obtain ⟨k, ro, cs⟩ := root
+          simp only [Node.route_mk] at hr; subst hr
+          simp [routesNode_mk]
+        · obtain ⟨c, hc, hs'⟩ := searchKids_sound _ _ _ hs
+          have := sound_searchNode c _ _ _ hs' hr
+          obtain ⟨k, ro, cs⟩ := root
+          rw [routesNode_mk]
+          exact List.mem_append_right _ (List.mem_flatMap.mpr ⟨c, hc, this⟩)
+      · cases h
+
+/-- `Has`/`Route` find every registered route under the text of its pattern -/
+theorem has_registered {t : Tree} {m : Bytes} {pat : List Tok} {r : Route} (hg : Good t)
+    (hm : (pat, r) ∈ sufsOf t m) : t.has m (render pat) = some r := by
+  unfold sufsOf at hm
+  unfold Tree.has
+  cases hroot : methodRoot t.roots m with
+  | none => rw [hroot] at hm; cases hm
+  | some root =>
+    rw [hroot] at hm
+    simp only []
+    have hro := hg.roots _ (methodRoot_some hroot)
+    obtain ⟨hpat, hok⟩ := hro.pats _ hm
+    obtain ⟨n', h1, h2⟩ := found_searchRoot hro.wf hok hm
+    unfold routeOf
+    simp only [h1, h2, Route.text]
+    simp only at hpat
+    subst hpat; simp
+
+/-- `Has`/`Route` only ever return a registered route, and one whose pattern text is the requested text -/
+theorem has_sound {t : Tree} {m : Bytes} {txt : Bytes} {r : Route} (h : t.has m txt = some r) :
+    r ∈ routesOf t m ∧ r.text = txt := by
+  unfold Tree.has at h
+  unfold routesOf
+  cases hroot : methodRoot t.roots m with
+  | none => simp [hroot] at h
+  | some root =>
+    simp only [hroot] at h ⊢
+    exact sound_routeOf h
+
+/-- **`Has` / `Route` read the map.** On related states: a key present in the map is found, with its stored
+    route, under the text of its pattern; whatever is found is an entry of the map with that pattern text; and if
+    no *other* registered pattern of the method renders to the same text as `pat` (rendering is injective on
+    parseable patterns), the lookup of `render pat` is exactly the map lookup of `pat`. -/
+theorem C02_has {t : Tree} {s : Store} (h : Sim t s) (m : Bytes) :
+    (∀ pat r, s.get m pat = some r → t.has m (render pat) = some r) ∧
+    (∀ txt r, t.has m txt = some r → r ∈ s.routesOf m ∧ render r.pattern = txt) ∧
+    (∀ pat, (∀ r' ∈ s.routesOf m, render r'.pattern = render pat → r'.pattern = pat) →
+      t.has m (render pat) = s.get m pat) := by
+  have h1 : ∀ pat r, s.get m pat = some r → t.has m (render pat) = some r := by
+    intro pat r hg
+    rw [store_get_eq] at hg
+    have hin := List.mem_of_find?_eq_some hg
+    have hp := List.find?_some hg
+    simp only [beq_iff_eq] at hp
+    obtain ⟨sr, hsr, rfl⟩ := (h.mem_iff m r).mp hin
+    have := (h.good.pats m sr hsr).1
+    apply has_registered h.good
+    obtain ⟨a, b⟩ := sr
+    simp only at this hp ⊢
+    rw [← hp, ← this]; exact hsr
+  have h2 : ∀ txt r, t.has m txt = some r → r ∈ s.routesOf m ∧ render r.pattern = txt := by
+    intro txt r hh
+    obtain ⟨ha, hb⟩ := has_sound hh
+    exact ⟨(h.abs.1 m).mem_iff.mp ha, hb⟩
+  refine ⟨h1, h2, ?_⟩
+  intro pat hinj
+  cases hg : s.get m pat with
+  | some r => exact h1 pat r hg
+  | none =>
+    cases hh : t.has m (render pat) with
+    | none => rfl
+    | some r =>
+      exfalso
+      obtain ⟨ha, hb⟩ := h2 _ _ hh
+      have hp := hinj r ha hb
+      rw [store_get_eq, List.find?_eq_none] at hg
+      exact hg r ha (by simp [hp])
+
+end Fox.C02
+
+namespace Fox.C02
+open Fox Fox.Model Fox.Spec
+
+/-! ### the iterators `All` and `Methods` -/
+
+instance : LawfulBEq Route where
+  eq_of_beq {a b} h := by
+    change instBEqRoute.beq a b = true at h
+    obtain ⟨a1, a2, a3, a4, a5⟩ := a
+    obtain ⟨b1, b2, b3, b4, b5⟩ := b
+    simp only [instBEqRoute.beq, Bool.and_eq_true, beq_iff_eq] at h
+    obtain ⟨rfl, rfl, rfl, rfl, rfl⟩ := h
+    rfl
+  rfl {a} := by
+    change instBEqRoute.beq a a = true
+    obtain ⟨a1, a2, a3, a4, a5⟩ := a
+    simp [instBEqRoute.beq]
+
+theorem count_fiber (m : Bytes) (r : Route) : ∀ l : List (Bytes × Route),
+    List.count (m, r) l = List.count r ((l.filter fun e => e.1 == m).map (·.2))
+  | [] => rfl
+  | e :: es => by
+    obtain ⟨m', r'⟩ := e
+    rw [List.count_cons, count_fiber m r es, List.filter_cons]
+    by_cases hm : m' = m
+    · subst hm
+      simp only [beq_self_eq_true, if_true, List.map_cons, List.count_cons]
+      congr 1
+      by_cases hr : r' = r
+      · subst hr; simp
+      · have : ((m', r') == (m', r)) = false := by
+          apply beq_false_of_ne; intro e; exact hr (Prod.mk.inj e).2
+        have h2 : (r' == r) = false := beq_false_of_ne hr
+        simp [this, h2]
+    · have h1 : (m' == m) = false := beq_false_of_ne hm
+      have h2 : ((m', r') == (m, r)) = false := by
+        apply beq_false_of_ne; intro e; exact hm (Prod.mk.inj e).1
+      simp [h1, h2]
+
+theorem all_fiber_none (m : Bytes) : ∀ rs : Roots, (∀ x ∈ rs, x.1 ≠ m) →
+    ((rs.flatMap fun x => (routesNode x.2).map fun r => (x.1, r)).filter fun e => e.1 == m) = []
+  | [], _ => rfl
+  | x :: xs, h => by
+    simp only [List.flatMap_cons, List.filter_append]
+    rw [all_fiber_none m xs (fun y hy => h y (by simp [hy]))]
+    simp only [List.append_nil, List.filter_eq_nil_iff, List.mem_map]
+    rintro e ⟨r, _, rfl⟩
+    simpa using h x (by simp)
+
+theorem all_fiber (m : Bytes) : ∀ rs : Roots, (rs.map (·.1)).Nodup →
+    ((rs.flatMap fun x => (routesNode x.2).map fun r => (x.1, r)).filter fun e => e.1 == m).map (·.2) =
+      routesOf ⟨rs, 0, 0, 0⟩ m
+  | [], _ => rfl
+  | x :: xs, hnd => by
+    simp only [List.map_cons, List.nodup_cons] at hnd
+    unfold routesOf
+    simp only [List.flatMap_cons, List.filter_append, List.map_append, methodRoot, List.find?_cons]
+    by_cases hm : x.1 = m
+    · have hrest : ∀ y ∈ xs, y.1 ≠ m := by
+        intro y hy e; apply hnd.1; rw [hm, ← e]; exact List.mem_map_of_mem (f := (·.1)) hy
+      rw [all_fiber_none m xs hrest]
+      have : (x.1 == m) = true := by simp [hm]
+      simp only [this, Option.map_some, List.map_nil, List.append_nil]
+      rw [List.filter_eq_self.mpr]
+      · simp [List.map_map, Function.comp_def]
+      · intro e he
+        obtain ⟨r, _, rfl⟩ := List.mem_map.mp he
+        exact this
+    · have h1 : (x.1 == m) = false := beq_false_of_ne hm
+      have := all_fiber m xs hnd.2
+      unfold routesOf at this
+      simp only [methodRoot] at this
+      simp only [h1, this]
+      rw [List.filter_eq_nil_iff.mpr]
+      · rfl
+      · intro e he
+        obtain ⟨r, _, rfl⟩ := List.mem_map.mp he
+        simp [h1]
+
+/-- **`All`.** The iterator over all routes yields exactly the entries of the map (as a multiset). -/
+theorem C02_all {t : Tree} {s : Store} (h : Sim t s) : (t.all).Perm s := by
+  rw [List.perm_iff_count]
+  rintro ⟨m, r⟩
+  rw [count_fiber, count_fiber]
+  have h1 : ((t.all.filter fun e => e.1 == m).map (·.2)) = routesOf t m := by
+    have := all_fiber m t.roots h.good.nodup
+    rw [routesOf_congr (t := t) (t' := ⟨t.roots, 0, 0, 0⟩) rfl m] at this
+    exact this
+  rw [h1]
+  exact (h.abs.1 m).count_eq r
+
+/-- **`Len`** is the number of routes the iterator `All` yields. -/
+theorem C02_len_all {t : Tree} {s : Store} (h : Sim t s) : t.size = t.all.length := by
+  rw [h.abs.2, (C02_all h).length_eq]
+
+/-- **`Methods`** lists exactly the methods that have at least one registered route. -/
+theorem C02_methods {t : Tree} {s : Store} (h : Sim t s) (m : Bytes) :
+    m ∈ t.methods ↔ s.routesOf m ≠ [] := by
+  have hne : s.routesOf m ≠ [] ↔ routesOf t m ≠ [] := by
+    constructor
+    · intro h1 h2; apply h1; have := h.abs.1 m; rw [h2] at this; exact this.symm.eq_nil
+    · intro h1 h2; apply h1; have := h.abs.1 m; rw [h2] at this; exact this.eq_nil
+  rw [hne]
+  -- a root has routes iff it has children
+  have hroot : ∀ n, RootOk n → (routesNode n ≠ [] ↔ n.children.isEmpty = false) := by
+    intro n hn
+    obtain ⟨k, ro, cs⟩ := n
+    obtain ⟨rfl, rfl, _, _⟩ := (wfRoot_iff _ _ _).mp hn.wf
+    have hsh := (shapeKids_iff _).mp hn.shape
+    simp only [Node.children_mk] at hsh ⊢
+    rw [routesNode_mk]
+    cases cs with
+    | nil => simp
+    | cons c cs =>
+      have := routes_ne_nil_of_shape c (hsh c (by simp))
+      simp [this]
+  simp only [Tree.methods, List.mem_map, List.mem_filter, Bool.not_eq_true']
+  constructor
+  · rintro ⟨x, ⟨hx, hc⟩, rfl⟩
+    have := methodRoot_of_mem h.good.nodup (show (x.1, x.2) ∈ t.roots from hx)
+    simp only [routesOf, this]
+    exact (hroot x.2 (h.good.roots x hx)).mpr hc
+  · intro hr
+    unfold routesOf at hr
+    cases hm : methodRoot t.roots m with
+    | none => rw [hm] at hr; exact absurd rfl hr
+    | some root =>
+      rw [hm] at hr
+      have hx := methodRoot_some hm
+      exact ⟨(m, root), ⟨hx, (hroot root (h.good.roots _ hx)).mp hr⟩, rfl⟩
+
+/-! ### parseable patterns are valid -/
+
+theorem findIdx_slash_spec : ∀ toks : List Tok, Tok.lit SLASH ∈ toks →
+    startsWithSlash (toks.drop (toks.findIdx (· == .lit SLASH))) = true ∧
+    noSlashTok (toks.take (toks.findIdx (· == .lit SLASH))) = true
+  | [], h => by cases h
+  | t :: ts, h => by
+    by_cases ht : t = .lit SLASH
+    · subst ht
+      simp [List.findIdx_cons, startsWithSlash, noSlashTok]
+    · have hb : (t == Tok.lit SLASH) = false := beq_false_of_ne ht
+      have hmem : Tok.lit SLASH ∈ ts := by
+        rcases List.mem_cons.mp h with e | e
+        · exact absurd e.symm ht
+        · exact e
+      obtain ⟨h1, h2⟩ := findIdx_slash_spec ts hmem
+      simp only [List.findIdx_cons, hb, cond_false, List.drop_succ_cons, List.take_succ_cons]
+      refine ⟨h1, ?_⟩
+      simp only [noSlashTok, List.contains_cons, Bool.not_or, Bool.and_eq_true, Bool.not_eq_true'] at h2 ⊢
+      refine ⟨?_, h2⟩
+      apply beq_false_of_ne
+      exact fun e => ht e.symm
+
+/-- The routes the driver (and fox's `parseRoute`) builds satisfy `validPattern`: tokens with `keyOk`, at least
+    one literal '/', `hostToks` the index of the first one, and a hostname part that does not end with a
+    catch-all (fox rejects catch-alls in hostnames). -/
+theorem validPattern_of_parse (hid : Nat) (toks : List Tok) (its rts : Bool) (hk : keyOk toks = true)
+    (hs : Tok.lit SLASH ∈ toks)
+    (hc : endsWithCatchAll (toks.take (toks.findIdx (· == .lit SLASH))) = false) :
+    validPattern { hid := hid, pattern := toks, hostToks := toks.findIdx (· == .lit SLASH),
+                   ignoreTS := its, redirectTS := rts } = true := by
+  obtain ⟨h1, h2⟩ := findIdx_slash_spec toks hs
+  rw [validPattern_iff]
+  exact ⟨hk, h1, h2, hc⟩
+
+/-! ### non-vacuity -/
+
+/-- a path-only pattern `/a/{x}` and a hostname pattern `a.{h}/b` satisfy the hypothesis -/
+example : validPattern { hid := 1, pattern := [.lit 47, .lit 97, .lit 47, .param [120]] } = true := by decide
+example : validPattern { hid := 2, pattern := [.lit 97, .lit 46, .param [104], .lit 47, .lit 98], hostToks := 3 } = true := by
+  decide
+
+
+/-- outcome class, for the examples below (4 + n = conflict naming n routes) -/
+def outcomeTag : Option Outcome → Nat
+  | none => 0
+  | some (.ok _) => 1
+  | some .exist => 2
+  | some .notFound => 3
+  | some (.conflict cs) => 4 + cs.length
+
+def exR1 : Route := { hid := 1, pattern := [.lit 47, .lit 97, .lit 47, .param [120]] }            -- /a/{x}
+def exR2 : Route := { hid := 2, pattern := [.lit 47, .lit 97, .lit 47, .param [121]] }            -- /a/{y}
+def exR3 : Route := { hid := 3, pattern := [.lit 97, .lit 46, .param [104], .lit 47, .lit 98], hostToks := 3 } -- a.{h}/b
+def exR3' : Route := { exR3 with hid := 4 }
+def exOps : List Op :=
+  [.handle GET exR1, .handle GET exR2, .handle GET exR1, .handle GET exR3, .update GET exR3',
+   .delete GET exR2.pattern, .delete GET exR1.pattern, .truncate [GET]]
+
+/-- a history exercising every outcome class: ok, conflict (one route), exist, ok, ok, notFound, ok, truncate;
+    the tree and the map produce the same classes, and `Len` goes 0 → 2 → 1 → 0 -/
+example : (runModel newTree exOps).2.map outcomeTag = [1, 5, 2, 1, 1, 3, 1, 0] := by decide
+example : (runSpec [] exOps).2.map outcomeTag = [1, 5, 2, 1, 1, 3, 1, 0] := by decide
+example : ∀ op ∈ exOps, op.valid = true := by decide
+example : (runModel newTree (exOps.take 5)).1.size = 2 ∧ (runModel newTree (exOps.take 7)).1.size = 1 ∧
+    (runModel newTree exOps).1.size = 0 := by decide
+
+end Fox.C02
+
+namespace Fox.C02
+
+/- TODO (statements not proved here):
+
+   * `Iter.Prefix` (`Tree.prefix`): for related states, `t.prefix m p` is (a permutation of) the routes r of the map
+     with `p <+: render r.pattern` — needs a byte-level prefix analysis of `searchNode` ending mid-key.
+   * `Iter.Routes` over a list of methods is `Tree.has` per method (`C02_has`), not stated separately.
+   * iteration order: `Tree.all` / `routesOf` are compared with the map as multisets only (`C02_all`, `C02_routes`);
+     the order (depth first, children sorted by key) is checked by the differential test, not proved.
+   * transactions (begin / commit / abort, `Txn` readers) and `ErrInvalidRoute` (pattern parser, property C10) are
+     outside this development: the theorems are about the tree operations a transaction performs.
+   * `render` injective on parseable patterns (third part of `C02_has` takes it as an explicit hypothesis).
+-/
+
 end Fox.C02
